@@ -228,40 +228,42 @@ class SimulaQronConnection(BaseNetQASMConnection):
 
     def _handle_reply(self):
         """Handle all next replies until a done message and return the msg ID for the done"""
-        # Try to read next message from the buffer otherwise read some more and try again
-        try:
-            ret_msg = deserialize_return_msg(self.buf)
-        except ValueError:
-            # Incomplete message
-            self._logger.debug("Incomplete message")
-            time.sleep(0.1)
-            self._read_more_data()
-            return self._handle_reply()
+        # NOTE this is a loop and not a recursion: a done message may be preceded by any number of
+        # returned values and a message may need any number of reads
+        while True:
+            # Try to read next message from the buffer otherwise read some more and try again
+            try:
+                ret_msg = deserialize_return_msg(self.buf)
+            except ValueError:
+                # Incomplete message
+                self._logger.debug("Incomplete message")
+                time.sleep(0.1)
+                self._read_more_data()
+                continue
 
-        # Remove the data of this message from the buffer
-        self.buf = self.buf[len(ret_msg):]
+            # Remove the data of this message from the buffer
+            self.buf = self.buf[len(ret_msg):]
 
-        self._logger.debug(f"Got message {ret_msg}")
-        if isinstance(ret_msg, MsgDoneMessage):
-            self._waiting_msg_ids.remove(ret_msg.msg_id)
-            self._done_msg_ids.add(ret_msg.msg_id)
-            return ret_msg.msg_id
-        elif isinstance(ret_msg, ReturnRegMessage):
-            self._update_shared_memory(
-                entry=Register.from_raw(raw=ret_msg.register),
-                value=ret_msg.value,
-            )
-        elif isinstance(ret_msg, ReturnArrayMessage):
-            self._update_shared_memory(
-                entry=Address(address=ret_msg.address),
-                value=ret_msg.values,
-            )
-        elif isinstance(ret_msg, ErrorMessage):
-            raise RuntimeError(f"Received error message from backend: {ret_msg}")
-        else:
-            raise NotImplementedError(f"Unknown return message of type {type(ret_msg)}")
-        # Continue handling replies until a done
-        return self._handle_reply()
+            self._logger.debug(f"Got message {ret_msg}")
+            if isinstance(ret_msg, MsgDoneMessage):
+                self._waiting_msg_ids.remove(ret_msg.msg_id)
+                self._done_msg_ids.add(ret_msg.msg_id)
+                return ret_msg.msg_id
+            elif isinstance(ret_msg, ReturnRegMessage):
+                self._update_shared_memory(
+                    entry=Register.from_raw(raw=ret_msg.register),
+                    value=ret_msg.value,
+                )
+            elif isinstance(ret_msg, ReturnArrayMessage):
+                self._update_shared_memory(
+                    entry=Address(address=ret_msg.address),
+                    value=ret_msg.values,
+                )
+            elif isinstance(ret_msg, ErrorMessage):
+                raise RuntimeError(f"Received error message from backend: {ret_msg}")
+            else:
+                raise NotImplementedError(f"Unknown return message of type {type(ret_msg)}")
+            # Continue handling replies until a done
 
     def block(self):
         while len(self._waiting_msg_ids) > 0:
